@@ -708,3 +708,88 @@ theorem resolve_sound_bases_counterexample :
   decide +kernel
 
 end Imports
+
+namespace Imports
+open Registry
+
+/-! ## re-exports (`noReexport` is NOT lifted): statement, bounded check, what is missing
+
+With `__all__` re-exports pydoctor MOVES the documentation of an object below its re-exporter; Python's
+identity of the object is its definition site.  The statement therefore relocates Python's answer:
+`finalLoc proj` (PdModel/Imports.lean) maps `D.K.…` to `X.a.…` when module `X` re-exports `D.K` as `a`.
+`WFr` = `WF` with `noReexport` replaced by `reexportShape`, the shape C07's property names: one
+`__all__` per module and no star import next to it; the re-exporter imports the object directly from
+the plain module that defines it (a top-level class / function that the definer does not list itself);
+at most one re-exporter per object; no import in a class body. -/
+
+/-- THE STATEMENT (soundness with moved objects, every processing order, every import order) — not proved -/
+def ResolveSoundReexport (proj : Project) (rank : List Nat) : Prop :=
+  WFr proj rank = true → ∀ (ordPd ordPy : List Nat) (m : Nat), m < proj.length →
+    ∀ (cp : List Name) (name : Path) (a b : Ident),
+      pdResolve proj ordPd m cp name = some a → PyImp.pyDenotes proj ordPy m cp name = some b → a = finalLoc proj b
+
+/-- … and its corollary: the resolution of a Python-bound name does not depend on the processing order -/
+def ResolveOrderIndependentReexport (proj : Project) (rank : List Nat) : Prop :=
+  WFr proj rank = true → ∀ (ord₁ ord₂ ordPy : List Nat) (m : Nat), m < proj.length →
+    ∀ (cp : List Name) (name : Path) (a b c : Ident),
+      pdResolve proj ord₁ m cp name = some a → pdResolve proj ord₂ m cp name = some b →
+      PyImp.pyDenotes proj ordPy m cp name = some c → a = b
+
+theorem ResolveSoundReexport.order_independent {proj : Project} {rank : List Nat}
+    (h : ResolveSoundReexport proj rank) : ResolveOrderIndependentReexport proj rank :=
+  fun hw o1 o2 op m hm cp name a b c h1 h2 h3 =>
+    (h hw o1 op m hm cp name a c h1 h3).trans (h hw o2 op m hm cp name b c h2 h3).symm
+
+/-- on projects without re-export requests `finalLoc` is the identity and `WFr` projects are `WF`: the
+statement is `resolve_sound_partial` / `resolve_sound_inherited` there -/
+example : finalLoc exProj (.dfn [['p','a'],['m','1'],['K']]) = .dfn [['p','a'],['m','1'],['K']] := by decide +kernel
+
+/-- the definer's body: a class with a method and a nested class, and a function -/
+def rxDefBody : List Stmt := [.classDef ['K'] [] [.funcDef ['g'], .classDef ['N'] [] [.assign ['v'] 1]], .funcDef ['f']]
+
+/-- a consumer of the definer `dp` / the re-exporter `xp` (new name `nn`): old name + subclass; new name;
+module alias to the definer; module alias to the re-exporter; star import from the definer; star import
+from the re-exporter; both names side by side -/
+def rxConsumer (dp xp : Path) (nn : Name) : Nat → List Stmt
+  | 0 => [.importFrom 0 dp ['K'] none, .classDef ['S'] [[['K']]] [.assign ['w'] 2]]
+  | 1 => [.importFrom 0 xp nn none, .classDef ['S'] [[nn]] []]
+  | 2 => [.importMod dp (some ['m','m']), .classDef ['S'] [[['m','m'], ['K']]] []]
+  | 3 => [.importMod xp (some ['m','m']), .classDef ['S'] [[['m','m'], nn]] []]
+  | 4 => [.importStar 0 dp, .classDef ['S'] [[['K']]] []]
+  | 5 => [.importStar 0 xp]
+  | _ => [.importFrom 0 dp ['K'] (some ['Q']), .importFrom 0 xp nn (some ['Q','2']), .importMod dp none,
+          .classDef ['S'] [[['Q','2']]] [], .classDef ['T'] [[['Q']]] []]
+
+/-- definer, one re-exporter (a sibling module, or the package `__init__` with a relative import; the
+object renamed or not), one consumer; with a topological index -/
+def rxProj (pkg renamed : Bool) (form : Nat) : Project × List Nat :=
+  let nn : Name := if renamed then ['R'] else ['K']
+  let asn : Option Name := if renamed then some ['R'] else none
+  if pkg then
+    ([⟨[['p']], true, [.importFrom 1 [['_','m']] ['K'] asn, .importFrom 1 [['_','m']] ['f'] (some ['h']), .allAssign [nn]]⟩,
+      ⟨[['p'], ['_','m']], false, rxDefBody⟩,
+      ⟨[['u','u']], false, rxConsumer [['p'], ['_','m']] [['p']] nn form⟩], [1, 0, 2])
+  else
+    ([⟨[['d','d']], false, rxDefBody⟩,
+      ⟨[['x','x']], false, [.importFrom 0 [['d','d']] ['K'] asn, .importFrom 0 [['d','d']] ['f'] (some ['h']), .allAssign [nn]]⟩,
+      ⟨[['u','u']], false, rxConsumer [['d','d']] [['x','x']] nn form⟩], [0, 1, 2])
+
+def rxFamily : List (Project × List Nat) :=
+  [true, false].flatMap fun pkg => [true, false].flatMap fun ren => (List.range 7).map fun form => rxProj pkg ren form
+
+/-- (every project of the family is `WFr`, is outside `noReexport`, has a re-export request, and the
+search found no violation; number of (processing order, import order, scope, name) cases in which both
+sides gave an answer) — `soundViolations` (PdModel/PyImp.lean) tries every dotted name of ≤ 3 components
+over the identifiers of the project in every scope -/
+def rxFamilyCheck : Bool × Nat :=
+  rxFamily.foldl (fun acc pr =>
+    let n := pr.1.length
+    let r := soundViolations pr.1 (perms (List.range n)) [List.range n, (List.range n).reverse] 2
+    (acc.1 && WFr pr.1 pr.2 && !(noReexport pr.1) && !(reexportReqs pr.1).isEmpty && r.1.isEmpty, acc.2 + r.2)) (true, 0)
+
+/-- **bounded check of the statement**: on the 28 projects of `rxFamily`, under EVERY processing order
+and two import orders, for every scope and every dotted name of ≤ 3 components: whenever pydoctor
+resolves the name and Python binds it, pydoctor's object is the relocated definition site (7 704 cases) -/
+theorem reexport_sound_bounded : rxFamilyCheck = (true, 7704) := by decide +kernel
+
+end Imports
